@@ -694,7 +694,7 @@ def chk_sec_roundtrip(sym, se, c):
     k = net.keys.private(se, is_compressed=c)
     blob = k.sec()
     if blob != k.sec(is_compressed=c) or len(blob) != (33 if c else 65):
-        return {"kind": "sec-flag-ignored"}
+        return {"kind": "sec-wrong-length-or-flag"}
     k2 = net.keys.public(blob)
     if tuple(k2.public_pair()) != tuple(k.public_pair()):
         return {"kind": "sec-roundtrip-point", "sec": blob.hex()}
